@@ -173,8 +173,12 @@ func (g *Generator) generateStructSchemaWithRefs(t reflect.Type) *openapi3.Schem
 			continue
 		}
 
+		// Only the tag `json:"-"` drops a field; `json:"-,"` names it "-".
+		if field.Tag.Get("json") == "-" {
+			continue
+		}
 		jsonName := getJSONFieldName(field)
-		if jsonName == "" || jsonName == "-" {
+		if jsonName == "" {
 			continue
 		}
 
@@ -417,8 +421,12 @@ func convertStructToSchemaWithDepthLimit(t reflect.Type, visited map[reflect.Typ
 			continue
 		}
 
+		// Only the tag `json:"-"` drops a field; `json:"-,"` names it "-".
+		if field.Tag.Get("json") == "-" {
+			continue
+		}
 		jsonName := getJSONFieldName(field)
-		if jsonName == "" || jsonName == "-" {
+		if jsonName == "" {
 			continue
 		}
 
@@ -533,10 +541,15 @@ func convertStructToSchemaWithVisited(t reflect.Type, visited map[reflect.Type]*
 			continue
 		}
 
+		// Only the tag `json:"-"` drops a field; `json:"-,"` names it "-".
+		if field.Tag.Get("json") == "-" {
+			continue // Skip explicitly ignored fields
+		}
+
 		// Get JSON field name
 		jsonName := getJSONFieldName(field)
-		if jsonName == "" || jsonName == "-" {
-			continue // Skip fields without JSON tags or explicitly ignored
+		if jsonName == "" {
+			continue
 		}
 
 		// Convert field type to schema
